@@ -604,7 +604,7 @@ def execute(session, mutant=None):
         # replug: the dongles are enumerated in another order (a dongle keeps its serial number, not
         # its index) and the serial-number URIs seen so far are used again -- the SAME strings now
         # name other indices.  Anything remembered from the first parse shows here.
-        ser_ops = [o for o in session['ops'] if o['e'] in ('parse', 'lookup') and o.get('u', {}).get('scheme') == 'radio'
+        ser_ops = [o for o in session['ops'] if o['e'] in ('parse', 'lookup', 'open') and o.get('u', {}).get('scheme') == 'radio'
                    and o['u'].get('dk') == 'serial' and o['u'].get('wf') == 'ok'
                    and 1 <= o['u']['dn'] <= session['env']['nd']][:6]
         if ser_ops and session.get('replug', True):
@@ -969,6 +969,7 @@ def report_violations(out, verdicts):
     sigs = sorted(by_sig)
     sessions = [isolate(by_sig[s][0], by_sig[s][1]) for s in sigs]
     again = judge(out, run_sessions(sessions), 'isolated witnesses', count=False)
+    unreproduced = []
     for sig, sess, v in zip(sigs, sessions, again):
         env, ev, clause, n = by_sig[sig]
         if v.clause == 'ok':
@@ -979,7 +980,10 @@ def report_violations(out, verdicts):
             v2 = judge(out, common.pmap(_exec_job, [(whole, None)] * 4, init=install, nproc=1)[:1], 'whole-session witness',
                        count=False)[0] if whole else None
             if v2 is None or v2.clause == 'ok':
-                raise common.MachineryError('violation %s did not reproduce in isolation: %r' % (sig, sess))
+                # neither the operation alone nor its session shows it again: it depended on what the worker
+                # process had executed before that session.  Must not mask the other witnesses of this run.
+                unreproduced.append((sig, sess))
+                continue
             sess, v = whole, v2
             sig = sig + '/needs-history'
         e2 = v.trace['ev'][v.allbad[0][0] - 1] if v.allbad else v.trace['ev'][0]
@@ -988,6 +992,10 @@ def report_violations(out, verdicts):
                   'classes': v.trace['classes']}
         out.violation(signature(e2, v.clause) + ('/needs-history' if sig.endswith('/needs-history') else ''),
                       v.clause, detail, {'session': sess})
+    if unreproduced:
+        out.extra['rejected_but_not_reproduced'] = [u[0] for u in unreproduced]
+        if not out.violations:
+            raise common.MachineryError('violation %s did not reproduce in isolation: %r' % unreproduced[0])
     return total
 
 
